@@ -948,9 +948,7 @@ macro_rules! impl_aminstarf {
                 let (argmin, msgmin) = var_messages
                     .iter()
                     .enumerate()
-                    .min_by(|(_, msg1), (_, msg2)| {
-                        msg1.value.abs().partial_cmp(&msg2.value.abs()).unwrap()
-                    })
+                    .min_by(|(_, msg1), (_, msg2)| msg1.value.abs().total_cmp(&msg2.value.abs()))
                     .expect("var_messages is empty");
                 let mut sign: u32 = 0;
                 let mut delta = None;
